@@ -35,9 +35,34 @@ BADKEYS = {"u8": ["x", "256", "-1", "", "1x", "a\"b", "back\\slash"], "i32": ["a
 COLLIDE = {"u8": [("1", "01"), ("7", "+7")], "i32": [("5", "+5"), ("0", "-0")]}
 
 
+def words(ident):
+    """word boundaries the way convert_case cuts an identifier (only used to offer plausible keys; the specification decides)"""
+    out, cur = [], ""
+    for i, c in enumerate(ident):
+        if c == "_":
+            if cur:
+                out.append(cur)
+            cur = ""
+            continue
+        if cur:
+            a = ident[i - 1]
+            nxt = ident[i + 1] if i + 1 < len(ident) else ""
+            boundary = (a.islower() and c.isupper()) or (a.isdigit() and c.isalpha()) or (a.isalpha() and c.isdigit()) or \
+                       (a.isupper() and c.isupper() and nxt.islower())
+            if boundary:
+                out.append(cur)
+                cur = ""
+        cur += c
+    if cur:
+        out.append(cur)
+    return out
+
+
 def camel(ident):
-    parts = ident.split("_")
-    return parts[0].lower() + "".join(p[:1].upper() + p[1:].lower() for p in parts[1:]) if "_" in ident else ident[:1].lower() + ident[1:]
+    ws = words(ident)
+    if not ws:
+        return ident
+    return ws[0].lower() + "".join(w[:1].upper() + w[1:].lower() for w in ws[1:])
 
 
 def transposed(s):
